@@ -15,6 +15,8 @@
 import EasyNet.Lemmas.StreamServer
 import EasyNet.Lemmas.RU
 import EasyNet.Lemmas.RUSpec
+import EasyNet.Lemmas.BufIface
+import EasyNet.Lemmas.BRUSpec
 namespace EasyNet
 open EasyNet.C15
 
@@ -24,7 +26,7 @@ open EasyNet.C15
     out of the reads the receiver made; those reads are a prefix of the request stream; and if the end of the stream
     was reached (peer disconnected), *every* request was delivered and the whole stream was read. -/
 theorem C15_delivery_reads {κ : Type} (I : Iface κ) (spec : Bytes → SRes) (Rel : κ → Bytes → Prop)
-    (Sim : IfaceSim I spec Rel) (L : SpecLaws spec) (k0 : κ) (hk0 : Rel k0 []) (sh : Shape) (tr : Transport) :
+    (Sim : IfaceSim I spec Rel) {ok : Bytes → Prop} (L : SpecLaws spec ok) (k0 : κ) (hk0 : Rel k0 []) (sh : Shape) (tr : Transport) :
     delivered (session I k0 sh tr) <+: (refRun spec [] (sessionFull I k0 sh tr).2.reads).2 ∧
     (sessionFull I k0 sh tr).2.reads.flatten <+: streamOf tr ∧
     ((sessionFull I k0 sh tr).2.sawEnd = true →
@@ -93,6 +95,48 @@ theorem C15_delivery_sep (sep : Bytes) (limit : Nat) (ke : Bool) (hsep : sep ≠
   C15_delivery ⟨RU.inv_init sep limit, fun s b c h => RU.feed_spec sep limit ke hsep s b c h⟩
     (RU.spec_laws sep limit ke hsep) maxRecv sh tr hno
 
+/-- **C15, main sentence, buffered receive path** (`_BufferedRequestReceiver` over `BufferedStreamDataConsumer` and
+    `_buffered_readuntil`; request stream whose frames are safely inside the buffer, `|payload| + |sep| < cap`):
+    the requests seen by the handler generators are a prefix of the frame-by-frame decoding of the stream, and all of it
+    when the peer's disconnection ended the session — whatever sizes the transport fills. -/
+theorem C15_delivery_sep_buffered (sep : Bytes) (cap : Nat) (ke : Bool) (hsep : sep ≠ []) (hcap : 0 < cap)
+    (sh : Shape) (tr : Transport)
+    (hsafe : AllOk (BRU.okFrame sep cap ke) (decodeW (BRU.spec sep cap ke) (streamOf tr)).2) :
+    delivered (session (bufIface BRU.init 0 cap (BRU.feed true sep ke)) BufConsumer.new sh tr)
+      <+: (decodeW (BRU.spec sep cap ke) (streamOf tr)).2 ∧
+    ((sessionFull (bufIface BRU.init 0 cap (BRU.feed true sep ke)) BufConsumer.new sh tr).2.sawEnd = true →
+      delivered (session (bufIface BRU.init 0 cap (BRU.feed true sep ke)) BufConsumer.new sh tr)
+        = (decodeW (BRU.spec sep cap ke) (streamOf tr)).2) := by
+  have R := BRU.refines sep cap ke hsep
+  have L := BRU.spec_laws sep cap ke hsep
+  have hnew : BufConsumer.Rel (·.buflen) (BRU.spec sep cap ke) (BRU.Inv sep cap) cap
+      (BufConsumer.new : BufConsumer BRUState) [] := ⟨rfl, Or.inl ⟨rfl, rfl, rfl, Or.inl rfl⟩⟩
+  have H := C15_delivery_reads (bufIface BRU.init 0 cap (BRU.feed true sep ke)) (BRU.spec sep cap ke) _
+    (bufIface_sim cap R L hcap) L BufConsumer.new hnew sh tr
+  obtain ⟨hpre, ⟨rest, hrest⟩, hfin⟩ := H
+  have hsafe' : AllOk (BRU.okFrame sep cap ke) (decodeW (BRU.spec sep cap ke)
+      ((sessionFull (bufIface BRU.init 0 cap (BRU.feed true sep ke)) BufConsumer.new sh tr).2.reads.flatten ++ rest)).2 := by
+    rw [hrest]; exact hsafe
+  have hcomp := decodeW_append L _ rest hsafe'
+  have hsafeR : AllOk (BRU.okFrame sep cap ke) (decodeW (BRU.spec sep cap ke)
+      ([] ++ (sessionFull (bufIface BRU.init 0 cap (BRU.feed true sep ke)) BufConsumer.new sh tr).2.reads.flatten)).2 := by
+    intro it hit
+    apply hsafe'
+    rw [hcomp]
+    simp only [List.nil_append] at hit
+    simp [hit]
+  have hind := refRun_chunk_independent L
+    (sessionFull (bufIface BRU.init 0 cap (BRU.feed true sep ke)) BufConsumer.new sh tr).2.reads [] (Or.inl rfl) hsafeR
+  simp only [List.nil_append] at hind
+  refine ⟨?_, ?_⟩
+  · rw [hind] at hpre
+    refine List.IsPrefix.trans hpre ?_
+    rw [← hrest, hcomp]
+    exact List.prefix_append _ _
+  · intro hs
+    obtain ⟨h1, h2⟩ := hfin hs
+    rw [h1, hind, h2]
+
 /-- non-vacuity: CRLF requests cut inside the separator, one byte per read, three generators (restart in the middle
     of the stream), a yielded timeout that expires before the second chunk: every request is delivered once, in order,
     and the hypotheses of `C15_delivery_sep` hold -/
@@ -120,7 +164,7 @@ example :
     delivered before), the clock stands at the deadline, and whatever the transport would deliver next — data or the
     end of the stream — arrives strictly after the deadline. -/
 theorem C15_timeout_only_when_idle {κ : Type} (I : Iface κ) (spec : Bytes → SRes) (Rel : κ → Bytes → Prop)
-    (Sim : IfaceSim I spec Rel) (L : SpecLaws spec) (S : Bytes) (s : RState κ) (D : List Item)
+    (Sim : IfaceSim I spec Rel) {ok : Bytes → Prop} (L : SpecLaws spec ok) (S : Bytes) (s : RState κ) (D : List Item)
     (hF : Full spec Rel S s D) (to : Nat) (hto : 0 < to) (hne : ∀ c ∈ s.tr.chunks, c.1 ≠ s.now + to)
     (ht : (recvNext I s (some to)).2 = .timeout) :
     Exact spec Rel (recvNext I s (some to)).1 D ∧
